@@ -153,3 +153,23 @@ func refSessionPacket(sid, seq uint32, integ int, k1, k2, iv, msg []byte) []byte
 	mac := refHMAC(alg, k1, d[4:])
 	return append(d, mac[:macLen]...)
 }
+
+// refSessionPacketRaw builds an authenticated, encrypted datagram around an arbitrary
+// plaintext (whole AES blocks), i.e. with whatever confidentiality pad the plaintext ends in.
+func refSessionPacketRaw(sid, seq uint32, integ int, k1, k2, iv, pt []byte) []byte {
+	ct := refAESCBC(true, k2[:16], iv, pt)
+	payload := append(append([]byte{}, iv...), ct...)
+	d := []byte{0x06, 0x00, 0xff, 0x07, 0x06, 0xC0}
+	d = append(d, refPutLE32(sid)...)
+	d = append(d, refPutLE32(seq)...)
+	d = append(d, byte(len(payload)), byte(len(payload)>>8))
+	d = append(d, payload...)
+	q := (4 - (12+len(payload)+2)%4) % 4
+	for i := 0; i < q; i++ {
+		d = append(d, 0xff)
+	}
+	d = append(d, byte(q), 0x07)
+	alg, macLen := refIntegrityHash(integ)
+	mac := refHMAC(alg, k1, d[4:])
+	return append(d, mac[:macLen]...)
+}
